@@ -79,6 +79,10 @@ func checkC16(P *Program, r *Result, tier string) {
 				continue
 			}
 			nc++
+			// a view that is only read on the spot (handed to a writer, compared, measured) is no decoded value
+			if cv, isVal := c.(ssa.Value); isVal && !viewEscapes(cv, 0) {
+				continue
+			}
 			ok, bad := onlyFresh(rootsOf(c.Common().Args[0]))
 			// ... and that slice is not handed back to the buffer pool by this function
 			if ok {
@@ -645,4 +649,66 @@ func versionFirstRule(P *Program, r *Result, A *Analysis) {
 			r.add("VERSION-FIRST", shortName(fn), "test", "a strict-version mask test exists", P.pos(fn.Pos()), false, "")
 		}
 	}
+}
+
+// viewEscapes: the string v (a zero-copy view) may outlive the call that made it: it is returned, stored, boxed, sent,
+// captured, or handed to a function that may do one of these with the corresponding parameter (repository callees are
+// followed three levels deep; anything else except len/copy/append-as-source/comparison counts as an escape).
+func viewEscapes(v ssa.Value, depth int) bool {
+	if depth > 3 {
+		return true
+	}
+	refs := v.Referrers()
+	if refs == nil {
+		return true
+	}
+	for _, ref := range *refs {
+		switch u := ref.(type) {
+		case *ssa.DebugRef:
+		case *ssa.BinOp:
+			// comparison / concatenation: concatenation copies
+		case *ssa.Phi, *ssa.Slice, *ssa.ChangeType:
+			if viewEscapes(u.(ssa.Value), depth) {
+				return true
+			}
+		case *ssa.Convert:
+			// string → []byte copies; string → string keeps the view
+			if isString(u.Type()) && viewEscapes(u, depth) {
+				return true
+			}
+		case *ssa.Index, *ssa.Lookup, *ssa.Range:
+		case ssa.CallInstruction:
+			com := u.Common()
+			if b, isB := com.Value.(*ssa.Builtin); isB {
+				switch b.Name() {
+				case "len", "copy":
+					continue
+				case "append":
+					if len(com.Args) > 0 && com.Args[0] == v {
+						return true
+					}
+					continue
+				}
+				return true
+			}
+			if _, isGo := u.(*ssa.Go); isGo {
+				return true
+			}
+			if _, isDefer := u.(*ssa.Defer); isDefer {
+				return true
+			}
+			cal := com.StaticCallee()
+			if cal == nil || !inRepo(cal) || cal.Blocks == nil {
+				return true
+			}
+			for i, a := range com.Args {
+				if a == v && i < len(cal.Params) && viewEscapes(cal.Params[i], depth+1) {
+					return true
+				}
+			}
+		default:
+			return true
+		}
+	}
+	return false
 }
